@@ -9,6 +9,7 @@ from ..index import dotted, walk_no_nested, norm_text, AnalysisError
 from ..cfg import describe_path
 from .. import util as U
 from ..dtable import Interp, compare
+from ..locks import node_expr as L_node_expr
 
 MOD = 'wpull.warc.recorder'
 CLS = MOD + ':WARCRecorder'
@@ -331,6 +332,23 @@ def _check_append(ctx, fi, app_call):
                 length = c.args[0] if c.args else None
             if isinstance(length, ast.Name) and length.id in size_names:
                 trunc_ok = True
+        if trunc_ok:
+            # ... on every path through the handler (a rollback skipped under a condition leaves the torn record)
+            def is_trunc(n):
+                e = L_node_expr(n)
+                if e is None:
+                    return False
+                for c in U.calls(e, attr='truncate'):
+                    d = dotted(c.func) or ''
+                    ln = (c.args[1] if len(c.args) > 1 else None) if d in ('os.truncate', 'os.ftruncate') else (c.args[0] if c.args else None)
+                    if isinstance(ln, ast.Name) and ln.id in size_names:
+                        return True
+                return False
+            for hn in hnodes:
+                p = cfg.find_path(hn, lambda n: n in (cfg.exit, cfg.xexit) or n.kind == 'raise', edge_ok=lambda a, b, k: not k.startswith('x:'), stop=is_trunc)
+                if p is not None:
+                    trunc_ok = False
+                    trunc_seen.append('skipped on the path ' + describe_path(p))
         ck.expect(trunc_ok, 'C06-D3', where, 'rollback truncate(%s)' % '/'.join(sorted(size_names)),
                   'rollback handler does not truncate the archive to the journalled pre-append size (saw: %s)' % (trunc_seen or 'no truncate'),
                   fi.loc(h))
